@@ -263,7 +263,7 @@ pub fn gen_reply(r: &mut Rng) -> Vec<u8> {
     use crate::mi::T;
     let bad_utf8: [&[u8]; 4] = [b"\xff", b"a\x80", b"\xc0\xaf", b"\xed\xa0\x80"];
     let mut top: Vec<(Vec<u8>, usize, T)> = vec![];
-    let mode = r.below(12);
+    let mode = r.below(14);
     // interval
     match mode {
         0 => {}
@@ -342,6 +342,13 @@ pub fn gen_reply(r: &mut Rng) -> Vec<u8> {
     if mode == 10 {
         let cut = r.below(out.len() as u64 + 1) as usize;
         out.truncate(cut);
+    }
+    if mode == 12 || mode == 13 {
+        // a byte string whose length prefix cannot be backed by data (nor allocated): cut the body somewhere and let a
+        // string with such a prefix follow
+        let cut = r.below(out.len() as u64 + 1) as usize;
+        out.truncate(cut);
+        out.extend_from_slice(if mode == 12 { b"18446744073709551615:abc" } else { b"9223372036854775808:" });
     }
     if mode == 11 {
         let n = r.below(10) as usize;
